@@ -17,6 +17,8 @@ import (
 	"github.com/criyle/go-sandbox/pkg/seccomp"
 	"github.com/criyle/go-sandbox/pkg/seccomp/libseccomp"
 	"github.com/criyle/go-sandbox/runner"
+	"github.com/criyle/go-sandbox/runner/ptrace"
+	"github.com/criyle/go-sandbox/runner/unshare"
 	"pgregory.net/rapid"
 
 	"verif/internal/probe"
@@ -25,7 +27,7 @@ import (
 
 type c09Case struct {
 	Runner   string // ptrace | unshare | container | container-after
-	Ending   string // exit | raise | fault | sigsys | hostkill
+	Ending   string // exit | raise | fault | sigsys | hostkill | noexec (the executable is missing / not executable: the runner could not do its job)
 	N        int    // exit code or signal number
 	Fault    string
 	Children string // none | exits-first | killed | still-running | child-raises-benign | busy-child (a child the main process never reaps burns more CPU than the runner's time bound allows the program, then exits; the main process stays far below it)
@@ -174,7 +176,55 @@ func c09Producible(c c09Case) bool {
 	return true
 }
 
+// c09NoExec: a launch whose execve fails (N selects missing / not executable / a directory), with a seccomp filter
+// configured like every real use has: nothing of a program ever ran, so the only truthful report is Runner Error with
+// an explanation - not an exit status.
+func c09NoExec(c c09Case, ce *c09Env, rec *vh.Recorder) error {
+	target := []string{"/nonexistent-program", "/etc/passwd", "/usr"}[c.N%3]
+	filter, err := buildFilter(nil, nil, libseccomp.ActionAllow)
+	if err != nil {
+		return vh.Infraf("filter: %v", err)
+	}
+	dn := devNullFile()
+	files := []uintptr{dn.Fd(), dn.Fd(), dn.Fd()}
+	var res runner.Result
+	var hung bool
+	switch c.Runner {
+	case "ptrace":
+		r := &ptrace.Runner{Args: []string{target}, Env: []string{"A=1"}, Files: files, Seccomp: filter, Handler: &recHandler{}, Limit: runner.Limit{TimeLimit: 5 * time.Second, MemoryLimit: 1 << 30}}
+		res, hung, _ = runWithTimeout(func() runner.Result { return r.Run(context.Background()) }, 20*time.Second)
+	case "unshare":
+		r := &unshare.Runner{Args: []string{target}, Env: []string{"A=1"}, Files: files, Seccomp: filter, Limit: runner.Limit{TimeLimit: 5 * time.Second, MemoryLimit: 1 << 30}}
+		res, hung, _ = runWithTimeout(func() runner.Result { return r.Run(context.Background()) }, 20*time.Second)
+	default:
+		env, err := ce.get()
+		if err != nil {
+			return err
+		}
+		p := container.ExecveParam{Args: []string{target}, Env: []string{"A=1"}, Files: files, Seccomp: filter}
+		if c.Runner == "container-after" {
+			p.SyncAfterExec, p.SyncFunc = true, func(int) error { return nil }
+		}
+		res, hung, _ = runWithTimeout(func() runner.Result { return env.Execve(context.Background(), p) }, 20*time.Second)
+	}
+	if hung {
+		ce.close()
+		return vh.Violf("C09:hung", "%+v: a launch of %s did not return in 20 s", c, target)
+	}
+	if res.Status != runner.StatusRunnerError {
+		return vh.Violf("C09:launch-failure-reported-as-program-ending", "%+v: %s cannot be executed, nothing of a program ran, yet the result is %q exit %d (error %q) instead of Runner Error", c, target, res.Status.String(), res.ExitStatus, res.Error)
+	}
+	if res.Error == "" {
+		return vh.Violf("C09:runner-error-empty", "%+v: Runner Error without explanation for %s", c, target)
+	}
+	rec.Case(c, true, "runner="+c.Runner, "ending=noexec", "noexec-target="+target)
+	return nil
+}
+
 func c09Run(c c09Case, ce *c09Env, rec *vh.Recorder) error {
+	if c.Ending == "noexec" {
+		return c09NoExec(c, ce, rec)
+	}
 	if !c09Producible(c) {
 		rec.Class("not-producible:"+c.Runner+"/"+c.Ending, 1)
 		return nil
@@ -366,7 +416,7 @@ func c09Run(c c09Case, ce *c09Env, rec *vh.Recorder) error {
 	return nil
 }
 
-const c09Rule = "case = runner in {ptrace, namespace(unshare), container sync-before, container sync-after} x ending in {exit n (0..255), self-sent signal with default disposition (every terminating signal 1..64), real fault (SEGV/FPE/ILL/BUS/TRAP), SIGSYS from a kill-default filter, SIGKILL sent from the host} x children behaviour in {none, child exits m first, child killed by a signal, child still running and ignoring signals at exit, child dies of SIGUSR1, an un-reaped child burns 400 ms CPU under a 150 ms runner time bound while the main process sleeps} x (container runners) 0..3 earlier calls on the same pooled environment in {callback refuses after exec, callback refuses before exec, cancelled run, program that leaves 4 or 150 orphans}; oracle = README status table; " +
+const c09Rule = "case = runner in {ptrace, namespace(unshare), container sync-before, container sync-after} x ending in {exit n (0..255), self-sent signal with default disposition (every terminating signal 1..64), real fault (SEGV/FPE/ILL/BUS/TRAP), SIGSYS from a kill-default filter, SIGKILL sent from the host, an executable that cannot be executed (missing, not executable, a directory; must be Runner Error with an explanation)} x children behaviour in {none, child exits m first, child killed by a signal, child still running and ignoring signals at exit, child dies of SIGUSR1, an un-reaped child burns 400 ms CPU under a 150 ms runner time bound while the main process sleeps} x (container runners) 0..3 earlier calls on the same pooled environment in {callback refuses after exec, callback refuses before exec, cancelled run, program that leaves 4 or 150 orphans}; oracle = README status table; " +
 	"rows the kernel cannot produce (self-sent signals to a pid-namespace init; signals the container init leaves ignored) are counted as not-producible; non-trivial = non-zero exit, a signal, or children; the grid test enumerates runner x ending exhaustively (all 256 codes in the thorough tier)"
 
 func TestC09Grid(t *testing.T) {
@@ -398,6 +448,9 @@ func TestC09Grid(t *testing.T) {
 		}
 		cases = append(cases, c09Case{Runner: r, Ending: "sigsys", Children: "none"})
 		cases = append(cases, c09Case{Runner: r, Ending: "hostkill", Children: "none"})
+		for n := 0; n < 3; n++ {
+			cases = append(cases, c09Case{Runner: r, Ending: "noexec", N: n, Children: "none"})
+		}
 	}
 	for _, c := range cases {
 		if err := c09Run(c, ce, rec); err != nil {
@@ -415,9 +468,11 @@ func c09GenCase() func(rt *rapid.T) c09Case {
 	sigs := c09FatalSignals()
 	return func(rt *rapid.T) c09Case {
 		c := c09Case{Runner: rapid.SampledFrom(c09Runners).Draw(rt, "runner"),
-			Ending:   rapid.SampledFrom([]string{"exit", "exit", "raise", "raise", "fault", "sigsys", "hostkill"}).Draw(rt, "ending"),
+			Ending:   rapid.SampledFrom([]string{"exit", "exit", "exit", "raise", "raise", "raise", "fault", "fault", "sigsys", "sigsys", "hostkill", "hostkill", "noexec"}).Draw(rt, "ending"),
 			Children: rapid.SampledFrom([]string{"none", "none", "exits-first", "exits-first", "killed", "killed", "still-running", "still-running", "child-raises-benign", "child-raises-benign", "busy-child"}).Draw(rt, "children")}
 		switch c.Ending {
+		case "noexec":
+			c.N = rapid.IntRange(0, 2).Draw(rt, "noexec")
 		case "exit":
 			c.N = rapid.IntRange(0, 255).Draw(rt, "code")
 		case "raise":
